@@ -81,7 +81,7 @@ var poolKeys = []string{"pool:KeyT", "pool:KeyA"}
 func genCase(user bool) func(t *rapid.T) Case {
 	return func(t *rapid.T) Case {
 		c := Case{EncOpts: genOpts(t, "enc"), Opts: genOpts(t, "call"), Entry: rapid.IntRange(0, 4).Draw(t, "entry")}
-		cfg := tv.Cfg{MaxDepth: rapid.IntRange(1, 4).Draw(t, "maxdepth"), Tags: true, Embedding: true, BigStructs: true, EscapeNames: true, Raw: true, Formats: rapid.Bool().Draw(t, "formats"),
+		cfg := tv.Cfg{MaxDepth: rapid.IntRange(1, 4).Draw(t, "maxdepth"), Tags: true, Embedding: true, BigStructs: true, EscapeNames: true, Raw: true, Fallbacks: true, Formats: rapid.Bool().Draw(t, "formats"),
 			TimeKinds: true, DurNoFormat: true, LegacyString: true,
 			MapKeys: []string{"string", "string", "int", "int8", "int64", "uint", "uint8", "uint64", "float64", "float32", "bool", "any", "any"}}
 		anyCfg := cfg
